@@ -78,6 +78,9 @@ type Outcome struct {
 	Steps       uint64
 	Switches    uint64
 	Preempts    uint64
+	SyncPre     uint64 // pre-emptions placed at a synchronisation event (lock acquisition, atomic operation)
+	FairYields  uint64
+	SharedIn    int // byte-string inputs shared read-only between tasks
 	Ops         int
 	Reused      int // operations that ran on a reused caller-owned object
 	Faults      map[string]int
@@ -393,7 +396,7 @@ func runEpochPass(p *Program, ei int, opt *Options, plan bool) *epochRun {
 // Execute runs a Program: per epoch a sequential reference pass and the
 // planned concurrent pass, then all oracles.
 func Execute(p *Program, opt *Options) *Outcome {
-	out := &Outcome{Faults: map[string]int{}}
+	out := &Outcome{Faults: map[string]int{}, SharedIn: len(p.Pool.Bytes)}
 	dropEphemeralLockEdges()
 	h := fnv.New64a()
 	sched := fnv.New64a()
@@ -430,6 +433,8 @@ func Execute(p *Program, opt *Options) *Outcome {
 		out.Steps += conc.sim.Steps
 		out.Switches += conc.sim.Switches
 		out.Preempts += conc.sim.Preempts
+		out.SyncPre += conc.sim.LockPreempts
+		out.FairYields += conc.sim.FairYields
 		out.Overlaps = append(out.Overlaps, conc.sim.Overlaps...)
 		if out.SiteHits == nil {
 			out.SiteHits = make([]uint32, len(conc.sim.SiteHits))
